@@ -102,6 +102,7 @@ func C11EarlyReply() {
 	c := NewClient(NewChannel(e, DefaultCap()))
 	answered := false
 	payload := sym.Bytes("reply", 1)
+	lostRightAfter := sym.Bool("connection-lost-right-after-the-early-reply")
 	s.onWrite = func(p []byte) {
 		if answered {
 			return
@@ -115,6 +116,11 @@ func C11EarlyReply() {
 		h.Type = net.Reply
 		s.inject(net.NewMessage(h, payload))
 		sym.Quiesce() // the reply is read and dispatched while the caller is still inside Send
+		if lostRightAfter {
+			// ... and the peer is gone right behind its reply, still before Send returns
+			s.peerClose()
+			sym.Quiesce()
+		}
 	}
 	got, err := c.Call(nil, sym.U32("service"), sym.U32("object"), sym.U32("action"), []byte{1})
 	sym.Assert(err == nil, "early-reply-lost")
@@ -216,4 +222,43 @@ func C11CloseRacingWithReply() {
 	sym.Assert(n <= 1, "close-race/event-duplicated")
 	sym.Assert(atomic.LoadInt32(&disconnects) == 1, "disconnect-callback-exactly-once")
 	sym.Reach("close-race-done")
+}
+
+// C11SubscriptionAfterLoss: a subscriber that is one event behind when the connection is lost (by the
+// peer, locally, or under the endpoint) and then cancels its subscription, as an application does from
+// its disconnect callback: its channel still ends up closed (draining it terminates), with at most the
+// one pending event.
+func C11SubscriptionAfterLoss() {
+	s := newZZStream()
+	e := net.NewEndPoint(s)
+	c := NewClient(NewChannel(e, DefaultCap()))
+	cancelSub, events, err := c.Subscribe(1, 1, 5)
+	sym.Assert(err == nil, "subscribe-ok")
+	behind := sym.Bool("subscriber-one-event-behind")
+	if behind {
+		s.inject(net.NewMessage(net.NewHeader(net.Event, 1, 1, 5, 77), []byte{7}))
+		sym.Quiesce()
+	}
+	switch sym.Choose("loss", 3) {
+	case 0:
+		s.peerClose()
+	case 1:
+		e.Close()
+	default:
+		s.Close()
+	}
+	sym.Quiesce()
+	if sym.Bool("subscriber-cancels-after-the-loss") {
+		cancelSub()
+	}
+	n := 0
+	for range events { // a channel that is never closed is a deadlock finding
+		n++
+	}
+	if behind {
+		sym.Assert(n <= 1, "sub-after-loss/event-duplicated")
+	} else {
+		sym.Assert(n == 0, "sub-after-loss/event-from-nowhere")
+	}
+	sym.Reach("sub-after-loss-done")
 }
